@@ -1216,9 +1216,18 @@ def register(M):
         p = deref_arg(ev, args[1])
         return make_opt(mk("ends_with", s, p), mk("strip_suffix_val", s, p))
 
-    @reg("std::string::String::new")
+    @reg("std::string::String::new", "std::string::String::with_capacity")
     def string_new(ev, fr, prog, fty, args, cx):
         return tm.string("")
+
+    @reg("std::string::String::push_str", "std::string::String::push")
+    def string_push(ev, fr, prog, fty, args, cx):
+        # text appended to a String under construction: the same term a formatter buffer gets from write_str
+        if is_ref(args[0]):
+            pl = place_of_ref(args[0])
+            ev.write(pl, mk("fmt_append", ev.read(pl), deref_arg(ev, args[1])))
+            return tm.UNIT
+        return NotImplemented
 
     @reg("core::str::<impl str>::parse", "std::str::FromStr::from_str")
     def parse(ev, fr, prog, fty, args, cx):
